@@ -665,6 +665,10 @@ def run(prog, rep, tier):
             stored = [a for a in Sc.select("attrstore", qname=fc.qname) if a.attr == name and selects(a.value)]
             ok = ok and len(stored) == 1
             why = "low=%s high=%s size=%s generator=%s" % (fmt(slots.get("low", ())), fmt(slots.get("high", ())), fmt(slots.get("size", ())), fmt(c.recv))
+        if not ok and len(us) == 1 and not all(plain_term(slots.get(k_)) for k_ in ("low", "high", "size")):
+            rep.unk("RANGE.uniform", fwhere(fc, us[0].node, construct="self.%s: %s" % (name, head(us[0].node)[:120])),
+                    "how the range of %s reaches rng.uniform is not written over %s[0] / %s[1] themselves (%s): not read" % (name, name, name, why[:120]))
+            continue
         rep.check("RANGE.uniform", ok, fwhere(fc, us[0].node if us else None, construct="self.%s: %s" % (name, head(us[0].node)[:120] if us else "-")), "self.%s <- rng.uniform(%s[0], %s[1], size=p) from default_rng(random_state)" % (name, name, name),
                   "range sampling of %s deviates: %s" % (name, why))
     pattern_method(prog, rep, LG + "LGANM.sample", ["W"])
